@@ -399,6 +399,8 @@ def main(pid, tier, repo=None):
     rule_blendsrc(ctx)
     from . import enummap
     enummap.run(ctx, pid)
+    from . import fixguards
+    fixguards.run(ctx, pid)
     ctx.not_decided("the blend arithmetic, clamping, alpha handling, crop intersection, resets_canvas / save_before_ct, patches (value-level)")
     return ctx.finish(
         "Reference-slot bookkeeping only: which slot a frame reads and which it is saved to. Ordering and control dependence of the "
